@@ -538,7 +538,7 @@ fn selector_zoo(rid0: &str, rid1: &str, setid: &str, aid: &[Option<&str>], data:
         ann_op(id(10), l(vec![a(5), l(vec![l(vec![a(2), a(0), a(0), a(5)]), l(vec![a(2), a(1), a(0), a(5)])])]), data.clone()),
         // 11: directional, not in text order, two resources, a nested composite
         ann_op(id(11), l(vec![a(7), l(vec![tsel(1, 5, 7), tsel(0, 1, 2), l(vec![a(6), l(vec![tsel(0, 3, 4), tsel(1, 0, 1)])])])]), data.clone()),
-        // 12: data key selector at top level (refused), 13: nested in a composite (known class)
+        // 12: data key selector at top level (refused), 13: nested in a composite (skipped, no separator)
         ann_op(id(12), l(vec![a(8), a(0), s("k")]), data.clone()),
         ann_op(id(13), l(vec![a(6), l(vec![tsel(0, 0, 1), l(vec![a(8), a(0), s("k")])])]), data.clone()),
         // 14: annotation data selector
